@@ -30,8 +30,9 @@ func VC10(tbl, op int) {
 }
 
 // request forms: equal States + equal pending request, hidden fields differ.
-// kind: 0 NMI, 1 maskable; n = len(Data); a NOP is pinned at PC for refused requests
-func VC10Req(kind, im, n int) {
+// kind: 0 NMI, 1 maskable; n = len(Data); d0 = first supplied byte in mode 0;
+// a NOP is pinned at PC for refused requests
+func VC10Req(kind, im, n, d0 int) {
 	var s States
 	vHavoc(&s, "s")
 	if im >= 0 {
@@ -53,9 +54,11 @@ func VC10Req(kind, im, n int) {
 	c1.Interrupt = &Interrupt{Type: t, Data: vBytes("d", n)}
 	c2.Interrupt = &Interrupt{Type: t, Data: vBytes("d", n)}
 	if im == 0 && n > 0 {
-		// mode 0 executes the supplied byte: pin it to RST 38h
-		c1.Interrupt.Data[0] = 0xff
-		c2.Interrupt.Data[0] = 0xff
+		// mode 0 executes the supplied byte: pinned to d0 (RST 38h, or an instruction
+		// that goes on reading operands or data at and after PC: CALL nn, LD A,(HL),
+		// LD A,(nn), LD (HL),n - supplied in full or in part)
+		c1.Interrupt.Data[0] = uint8(d0)
+		c2.Interrupt.Data[0] = uint8(d0)
 	}
 	c1.Step()
 	c2.Step()
